@@ -195,6 +195,7 @@ def parsePSource (s : String) : Option PSource :=
   else if s == "F" then some .follower
   else if s.startsWith "L" then (listOf parseEntry (if s.length == 1 then "-" else (s.drop 1).toString)).map .load
   else if s.startsWith "E" then (listOf parseEntry (if s.length == 1 then "-" else (s.drop 1).toString)).map .env
+  else if s.startsWith "H" then (listOf parseEntry (if s.length == 1 then "-" else (s.drop 1).toString)).map .helper
   else none
 
 def parsePSrcs (s : String) : Option (List PSource) := if s == "-" then some [] else (s.splitOn "/").mapM parsePSource
@@ -206,6 +207,7 @@ def polArm (srcs : List PSource) : String :=
   (if srcs.any (fun s => match s with | .load (_ :: _) => true | _ => false) then "file-entries" else "plain")
   ++ (if srcs.any (fun s => match s with | .env (_ :: _) => true | _ => false) then "+env-entries" else "")
   ++ (if srcs.contains .follower then "+follower" else "")
+  ++ (if srcs.any (fun s => match s with | .helper _ => true | _ => false) then "+helper" else "")
   ++ (if modelInstalled srcs then "" else "/nil")
 
 /-- `pol <steps> => <nil | diff of Config.RPCPolicy against the shipped table> <Validate ok|err>` -/
